@@ -161,7 +161,8 @@ def run(tier):
         if root.exists():
             shutil.rmtree(root)
         root.mkdir(parents=True)
-        cfg = {"root": str(root / "db"), "fill_factor": 3, "event_per_zone": 1, "shards": 2, "k": 2}
+        ff, epz = [(3, 1), (2, 2), (1, 4), (2, 3)][bi % 4]      # zones of 1-4 rows, so that a zone can span old and new seconds
+        cfg = {"root": str(root / "db"), "fill_factor": ff, "event_per_zone": epz, "shards": 2, "k": 2}
         by = {}
         failed = None
         for li, steps in enumerate(lts):
@@ -173,7 +174,7 @@ def run(tier):
                 t = o.get("tag")
                 if isinstance(t, list) and len(t) == 2 and isinstance(t[0], int):
                     by[(t[0], t[1])] = o
-        rep = {"behaviour": beh, "variant": variant}
+        rep = {"behaviour": beh, "variant": variant, "fill_factor": ff, "event_per_zone": epz}
         stats["histories"] += 1
         if failed:
             chk.violation(failed, rep)
